@@ -406,6 +406,31 @@ impl Check for C08 {
             }
         }
         flush(ctx, &mut cases, self)?;
+        // (3c) parentheses around the whole expression of a statement: iterable, condition, returned
+        // value, right-hand side, argument, index -- same tree, and the same behaviour when the body
+        // changes what the expression read
+        for e in ["a .. b", "a + b", "f(a)", "a", "a == b", "a .. b + 1", "xs[a]"] {
+            for ctxt in ["for e in @ {\nprint(e)\n}\n", "if @ {\nprint(1)\n}\n", "while @ {\nbreak\n}\n", "return @\n", "x := @\n", "x = @\n", "x += @\n", "print(@)\n", "xs[@] = 1\n", "x := xs[@]\n", "x := xs[@:]\n", "x := [@, 1]\n", "x := {\"k\": @}\n", "x := f(@, 1)\n"] {
+                let base = ctxt.replace('@', e);
+                let expected = match parse_prog(&base) {
+                    Ok(p) => dump_prog(&p),
+                    Err(_) => continue,
+                };
+                for w in [format!("({})", e), format!("(({}))", e), format!("( {} )", e)] {
+                    let mut c = Case::new(ctxt.replace('@', &w), T_TREE, expected.clone());
+                    c.mode = Mode::Ast;
+                    c.no_ref = true;
+                    cases.push(c);
+                }
+            }
+        }
+        for (lo, hi) in [("0", "todo"), ("0", "todo + 1"), ("todo - 3", "todo")] {
+            for w in ["@", "(@)", "((@))"] {
+                let r = w.replace('@', &format!("{} .. {}", lo, hi));
+                cases.push(Case::new(format!("todo := 5\nfor [_, i] in {} {{\nprint(i)\ntodo -= 1\n}}\nprint(todo)\nn := 3\nwhile {} {{\nn -= 1\n}}\nprint(n)\n", r, w.replace('@', "n > 0")), T_EVAL, format!("iterable {} and a body that changes its bound", r)));
+            }
+        }
+        flush(ctx, &mut cases, self)?;
         // (3b) any number of redundant parentheses: n pairs around a name, around a whole operation
         // and around its right operand leave the tree unchanged (n up to 64, then selected sizes)
         let mut depths: Vec<usize> = (1..=64).collect();
